@@ -152,9 +152,9 @@ def state_fn(conf, hist, G, M):
 
 
 def run(tier, seed):
-    params = {'u1_depth': 2, 'u2_depth': 2, 'two_depth': 3, 'u3_depth': 1} if tier == 'quick' else {'u1_depth': 3}
+    params = {'u1_depth': 2, 'u2_depth': 2, 'two_depth': 3, 'u3_depth': 1} if tier == 'quick' else {'u1_depth': 4, 'u2_depth': 2, 'two_depth': 3, 'u3_depth': 2, 'uc_depth': 5}
     return base.run_state_property(
-        PROP, LEVEL, state_fn, tier, seed, which=base.NO_LONG, reduced=base.REDUCED_LIGHT, params=params,
+        PROP, LEVEL, state_fn, tier, seed, thorough_full=(0, 1), which=base.NO_LONG, reduced=base.REDUCED_LIGHT, params=params,
         vacuity={'states_reciprocal': 10, 'states_reciprocal_different_overlapping': 5, 'states_selfloop': 10,
                  'nested_values_mutated': 50},
         sample_fn=base.default_samples,
